@@ -371,6 +371,7 @@ class Gen:
         self.identity_calls = set()     # wrappers that do not change the bytes (X::from_le_bytes, .as_le_bytes(), ...)
         self.big = None                 # big-integer mode: dict(be=, into=, gen_params=set(), prime_params=set()) or None
         self.loop_depth = 0             # >0 while translating a `for` body: `return e` leaves the loop with (inl e)
+        self.tape_calls = {}            # calls that draw from the explicit tape: name -> (translated fn taking the tape last, result type)
         self.cipher_calls = {}          # free fn f(data, key, &mut a, &mut b): name -> translated per-byte step (folded over data)
         self.self_pure_calls = {}       # `self.m()` without arguments standing for a pure modelled value: name -> (gallina term, type)
         self.struct_params = {}         # parameter name -> [field names]: a `&Struct` parameter passed as its fields (env keys "p.f")
@@ -628,6 +629,15 @@ class Gen:
                 v_ = self.fresh("x"); e_ = self.fresh("e")
                 return "match %s with inl %s =>\n  %s | inr %s => %s end" % (a, v_, k(v_, ta[1]), e_, (self.fn_final)(("(inr %s)" % e_, "result")))
             return self.expr(e[1], ktry)
+        if kind == "fncall" and e[1] in self.tape_calls and self.tape is not None:
+            g_, rty = self.tape_calls[e[1]]
+            args = e[2]
+            def gtc(i, acc):
+                if i == len(args):
+                    v_ = self.fresh("o")
+                    return "match %s %s %s with None => None | Some (%s, %s) =>\n  %s end" % (g_, " ".join(acc), self.tape, v_, self.tape, k(v_, rty))
+                return self.expr(args[i], lambda t_, tt: gtc(i + 1, acc + [t_]))
+            return gtc(0, [])
         if kind == "fncall" and e[1] in self.opt_calls:
             g_, rty = self.opt_calls[e[1]]
             args = e[2]
